@@ -97,12 +97,15 @@ Derive(i) == [ok |-> TRUE, attrs |-> Attrs(i),
               rotZero |-> i.phase # "G",
               qrotE |-> IF i.phase = "G" THEN QRotExp(i) ELSE 0,
               qtransE |-> IF i.ast # None THEN i.ast ELSE 0,
+              \* what the KNOWN deviation X08-F2 (only the largest moment) would report; used by the driver to
+              \* name that deviation exactly (base moments of the replay are equal, so max(I) = I0 4^max(b))
+              qrotEMax |-> IF i.phase = "G" /\ i.geom = "nonlinear" THEN MaxOf(i.mom) - i.sig ELSE 0,
               modes |-> i.modes]
 
 \* keys a dictionary needs so that the constructor can be run again
 CtorKeys == {"class", "name", "phase", "elements", "model", "misc_models", "A_st", "geometry", "symmetrynumber",
              "inertia", "vib_wavenumbers", "potentialenergy"}
-ErrObj == [ok |-> FALSE, attrs |-> {}, rotZero |-> FALSE, qrotE |-> 0, qtransE |-> 0, modes |-> <<>>]
+ErrObj == [ok |-> FALSE, attrs |-> {}, rotZero |-> FALSE, qrotE |-> 0, qtransE |-> 0, qrotEMax |-> 0, modes |-> <<>>]
 NoDict(i) == [some |-> FALSE, keys |-> {}, src |-> i]
 DictOf(i) == CASE DictRule = "complete" -> [some |-> TRUE, keys |-> CtorKeys, src |-> i]
                [] DictRule = "nowavenumbers" -> [some |-> TRUE, keys |-> CtorKeys \ {"vib_wavenumbers", "potentialenergy"}, src |-> i]
